@@ -264,4 +264,6 @@ def run(repo, tier):
         res.add(Finding('SPEC', ic.fullname, 'fit_results snapshots', ic.loc,
                         'IterativePSFPhotometry.__call__ must append deepcopy(self._psfphot) after every iteration: the live worker is '
                         'overwritten by the next iteration, so all entries would alias the last one', {}))
+    from .common import run_generic_pack
+    run_generic_pack(repo, res, PROP, MODS)
     return res
